@@ -91,7 +91,7 @@ def sig_by_context(p, kind, canon_kinds):
     return f"{p.seed.codemod}|{p.seed.id}|{kind}"
 
 
-def run_monitor(prop, tier, seed, monitor, *, runs_needed=2, select=None, describe="", sig_fn=sig_by_seed):
+def run_monitor(prop, tier, seed, monitor, *, runs_needed=2, select=None, describe="", sig_fn=sig_by_seed, confirm="cli"):
     """monitor(program, rec) -> iterable of (kind, detail).  Returns the pieces for core.finish()."""
     progs, recs, stats, hit, wall = explore_space(tier, seed)
     if select:
@@ -124,7 +124,9 @@ def run_monitor(prop, tier, seed, monitor, *, runs_needed=2, select=None, descri
     # confirm-alone rule: only signatures that are not already listed are re-executed through the CLI
     known_open = {k["signature"] for k in core.load_known() if k["property"] == prop and k["status"] == "open"}
     to_confirm = [(sig, c) for sig, c in sorted(cands.items()) if sig not in known_open]
-    confirmed = drive.pmap("cmverif.batch:confirm_alone_job", [(c[0], runs_needed, ()) for _, c in to_confirm])
+    # "cli": twice through the console script; "inproc": twice alone in fresh worker runs (needed when the monitor reads
+    # observations only the in-process taps provide, e.g. the detector's answers)
+    confirmed = drive.pmap("cmverif.batch:confirm_alone_job" if confirm == "cli" else "cmverif.batch:confirm_alone_inproc_job", [(c[0], runs_needed, ()) for _, c in to_confirm])
     violations = []
     batch_divergence = []
     for (sig, (p, kind, detail)), (r1, r2) in zip(to_confirm, confirmed):
